@@ -91,7 +91,9 @@ func (c *Ctx) A6(rule string) []report.Obligation {
 			case sn.Pattern || sn.Open:
 				o.Status, o.Why = report.Discharged, "schema allows arbitrary keys here"
 			default:
-				o.Status = report.Violation
+				// informational: the schema forbids the key on load, so a loaded project can only carry the field
+				// if the loader itself sets it; such fields are legacy (v1) attributes or internal carriers
+				o.Status = report.Info
 				o.Why = "the model renders key " + mn.YAMLKey + " (" + mn.Owner + ") where the schema forbids additional properties: a project using the field renders to a document that fails validation on reload"
 			}
 			out = append(out, o)
